@@ -4,6 +4,7 @@ from __future__ import annotations
 import asyncio
 import contextvars
 import faulthandler
+import os
 import json
 import sys
 import time as _walltime
@@ -356,7 +357,15 @@ def execute(main_factory, scenario: dict, *, step_cap=400_000, vt_cap_s=100_000,
     """
     env.load_repid()
     seed = scenario["seed"]
-    sim = Sim(seed, step_cost=scenario.get("knobs", {}).get("step_cost", 0), epoch_us=scenario.get("epoch_us"))
+    # the process time zone of this run (zones without daylight saving time: a fixed offset); naive datetimes are local time
+    tz = scenario.get("knobs", {}).get("tz", "seed")
+    if tz == "seed":  # every check: half of the runs in UTC, a quarter each in UTC+9 and UTC-7
+        tz = [None, None, "Asia/Tokyo", "America/Phoenix"][kernel.derive_seed(seed, "tz") % 4]
+    tz_off = {"Asia/Tokyo": 9 * 3600, "America/Phoenix": -7 * 3600}.get(tz, 0)
+    if tz_off:
+        os.environ["TZ"] = tz
+        _walltime.tzset()
+    sim = Sim(seed, step_cost=scenario.get("knobs", {}).get("step_cost", 0), epoch_us=scenario.get("epoch_us"), tz_offset_s=tz_off)
     sim.loop.step_cap = scenario.get("step_cap", step_cap)
     sim.loop.vt_cap_us = int(vt_cap_s * 1e6)
     np_ = scenario.get("knobs", {}).get("net")
@@ -375,6 +384,9 @@ def execute(main_factory, scenario: dict, *, step_cap=400_000, vt_cap_s=100_000,
             if fin is not None:
                 fin(a)
     finally:
+        if tz_off:
+            os.environ["TZ"] = "UTC"
+            _walltime.tzset()
         faulthandler.cancel_dump_traceback_later()
         out.pop("_on_abort", None)
         out["steps"] = sim.loop.step
@@ -382,6 +394,8 @@ def execute(main_factory, scenario: dict, *, step_cap=400_000, vt_cap_s=100_000,
         out["digest"] = sim.loop.digest
         out["ilv"] = sim.loop.ilv_digest
         out["fired"] = dict(sim.fired)
+        if sim.loop.blocked_joins:
+            out["fired"]["loop-blocked-joining-a-pool-thread"] = sim.loop.blocked_joins
         out["net"] = dict(sim.loop.net.stats)
         out["exc_log"] = sim.loop.exc_log[:20]
         out["wall_s"] = _walltime.perf_counter() - t0
